@@ -20,7 +20,7 @@ def problems(res, jobs, outs, what):
 
 # ---- terminals that may contain the ignored characters (dynamic lexers): every tree the forest encodes must be a *tiling* of the input —
 # tokens in order, disjoint, each matching its terminal, every gap made of ignored text.  (The brute-force derivation oracle above works on single-character tokens.)
-TILE_TERMS = ['/a ?/', '/ *b/', '/a+/', '/[ab]+ ?/', '/ ?c/', '/b+/', '/a[ a]*/', '/c/']
+TILE_TERMS = ['/a ?/', '/ *b/', '/a+/', '/[ab]+ ?/', '/ ?c/', '/b+/', '/a[ a]*/', '/c/', '/a(bc)?/', '/c(ab)?/', '/b+(cb+)?/']     # the last three: a proper prefix of a match may match only partially
 TILE_FIXED = ['start: A B\nA: /a ?/\nB: / *b/\n%ignore / +/\n', 'start: (A | B)+\nA: /a+ ?/\nB: / ?b+/\n%ignore / +/\n', 'start: x+\nx: A | A B\nA: /a[ a]*/\nB: /b/\n%ignore " "\n']
 
 
@@ -59,7 +59,7 @@ def _tile_case(seed):
                             if r.fullmatch(s, i, j): ok.add(j)
             return len(s) in ok
         for _ in range(5):
-            text = ''.join(rng.choice(['a', 'b', 'c', ' ', ' ', 'a ', ' b', '  ']) for _ in range(rng.randint(1, 6)))
+            text = ''.join(rng.choice(['a', 'b', 'c', ' ', ' ', 'a ', ' b', '  ', 'abc', 'cab', 'bcb']) for _ in range(rng.randint(1, 6)))
             try:
                 with guarded(6):
                     t = pe.parse(text)
